@@ -414,7 +414,7 @@ def pred_tucker_identity(X, core, factors):
     return None
 
 
-def pred_tr(X, rank, mode, factors, sufficient, rel=None):
+def pred_tr(X, rank, mode, factors, sufficient, rel=None, ub_ok=True):
     n = X.ndim
     REL = globals()["REL"] if rel is None else rel
     req = [rank] * (n + 1) if isinstance(rank, int) else list(rank)
@@ -443,6 +443,20 @@ def pred_tr(X, rank, mode, factors, sufficient, rel=None):
             lb = max(lb, tail(sv(M), req[a] * req[b]))
     if err < lb * (1 - SLACK) - REL * nx:
         return f"tensor_ring: error {err:.6e} is below the largest discarded tail {lb:.6e}: the advertised ranks {req} are not respected"
+    if ub_ok:
+        # transcription of C09_tensor_ring_error_upper: with the input rotated to the start mode and r_k the bonds of the RETURNED
+        # factors, error^2 <= tail^2 of the first unfolding at r_0 r_1 kept + sum_k tail^2 of the k-th sequential unfolding at r_k // r_0 kept
+        m = int(mode) % n
+        Xr = np.transpose(Xf, list(range(m, n)) + list(range(m)))
+        fr = list(factors[m:]) + list(factors[:m])
+        r0, r1 = fr[0].shape[0], fr[0].shape[2]
+        t2 = tail(sv(Xr.reshape(Xr.shape[0], -1)), r0 * r1) ** 2
+        for k in range(1, n - 1):
+            t2 += tail(sv(Xr.reshape(int(np.prod(Xr.shape[:k + 1])), -1)), fr[k].shape[2] // max(r0, 1)) ** 2
+        ub = math.sqrt(t2)
+        if err > ub * (1 + SLACK) + REL * nx:
+            return (f"tensor_ring: error {err:.6e} exceeds the ring root-sum-square bound {ub:.6e} (first unfolding at r0*r1 kept, later "
+                    f"sequential unfoldings at bond // r0 kept; returned bonds {[f.shape[0] for f in factors]}, start mode {mode})")
     return None
 
 
@@ -528,8 +542,14 @@ def run_impl(kind, X, rank, extra, via_class=False, rank_obj=None, instance=None
     return st, v, tp.calls
 
 
+FULLREQ = {}     # (shape, rank, mode) of every tensor_ring input labelled "sufficient" (the premise of C09_tensor_ring_exact_full_request is
+                 # evaluated on them inside Coq at the end of the run: Corr/C09.v kind KFullReq, sound by C09_tr_full_requestb_sound)
+
+
 def predicate(kind, X, rank, extra, st, v, info, calls=None):
     """message | None for one implementation run (valid requests only)"""
+    if kind == "tr" and info.get("sufficient") and info.get("valid", True) and not isinstance(rank, int) and len(FULLREQ) < 400:
+        FULLREQ.setdefault((tuple(int(x) for x in X.shape), tuple(int(r) for r in rank), int(extra.get("mode", 0))), None)
     if st != "ok":
         if info.get("valid", True):
             return f"{kind}: raised on a valid request: {v}"
@@ -632,7 +652,7 @@ def predicate_method(kind, X, rank, extra, v, info, method):
         elif kind == "tucker":
             msg = pred_tucker(X, rank, v[0], v[1], rel=rel, ub_ok=ub_ok)
         else:
-            msg = pred_tr(X, rank, extra.get("mode", 0), v, info.get("sufficient", False), rel=rel)
+            msg = pred_tr(X, rank, extra.get("mode", 0), v, info.get("sufficient", False), rel=rel, ub_ok=ub_ok)
         return None if msg is None else msg.replace(":", f" (svd={method}):", 1)
     except Exception as e:
         return f"{kind} (svd={method}): output cannot be reconstructed: {type(e).__name__}: {e}"
@@ -1022,7 +1042,7 @@ def gen_sequences(tier, rng, nrng, small):
                             "tucker": [(3, 3, 3), (2, 3, 3), (2, 2, 2, 2), (3, 4), (4, 2, 3)]}
     for i in range(N):
         kind = ["tt", "tt", "ttm", "tr", "tt", "tucker", "ttm", "tr"][i % 8]
-        style = SEQ_STYLES[(i // 2) % len(SEQ_STYLES)]
+        style = SEQ_STYLES[(i // 8 + i) % len(SEQ_STYLES)]      # every (function, style) pair occurs within 40 consecutive sequences
         if small:
             big = rng.choice(small_shapes_by_kind[kind])
         else:
@@ -1051,6 +1071,15 @@ def gen_sequences(tier, rng, nrng, small):
         else:
             rank = [max(1, s - rng.randint(0, 1)) for s in big]
             extra = {"n_iter_max": rng.choice([0, 1, 2]), "tol": 0, "init": "svd"}
+        if rng.random() < 0.15:
+            # ONE int for every bond: no object is shared by the caller, but the calls must still be independent of each other
+            # (a validator caching the list it builds for an int request would couple them)
+            cap = min(big) if kind != "ttm" else 4
+            rank = rng.choice([1, 2, 2, 3]) if kind != "tr" else rng.choice([1, 1, 2])
+            if kind == "tr" and not tr_valid_for(big, rank, extra["mode"]):
+                rank = 1
+            info["sufficient"] = False
+            style = "function_int" if style.startswith("function") else "class_object_int"
         pattern = rng.choice(["SB", "SB", "SB", "BSB", "SSB", "SBB"])
         shapes = []
         for ch in pattern:
@@ -1086,7 +1115,7 @@ def run_sequence(kind, style, Xs, rank, extra):
     else:
         shared = list(rank)          # THE object every call of the sequence receives
     inst = None
-    if style in ("class_object", "class_object_tuple"):
+    if style in ("class_object", "class_object_tuple", "class_object_int"):
         inst = make_instance(kind, shared, extra)
     for step, X in enumerate(Xs):
         if style == "class_new_objects_shared_list":
@@ -1686,6 +1715,7 @@ def run(chk):
     rng = random.Random(chk.seed)
     nrng = np.random.RandomState(rng.randrange(2 ** 31))
     del STRICT_CASES[:]
+    FULLREQ.clear()
     chk.build_proofs()
     # common.print_assumptions also captures the header line "Axioms:" that Coq prints before the list; it is not an axiom
     chk.axioms = {k: [a for a in v if a != "Axioms"] for k, v in (getattr(chk, "axioms", None) or {}).items()}
@@ -1909,6 +1939,22 @@ def run(chk):
         chk.hist("method_dtype", "complex" if np.iscomplexobj(X) else str(X.dtype))
         if msg:
             chk.finding(EP[kind], describe(kind, X, rank, extra, info), msg, "C09_svd_methods")
+    # ---- the generator's label "sufficient" for tensor_ring inputs = the decidable premise of the exactness theorem (evaluated in Coq) ----
+    fr_cases, fr_meta = [], []
+    for (shape_, rank_, mode_) in list(FULLREQ):
+        cid = len(fr_cases)
+        shp_lit = "(mk " + C.nat_list(list(shape_)) + " (@nil Q))"
+        fr_cases.append(f"({cid}%nat, (KFullReq {C.nat(mode_)}), {shp_lit}, {rank_lit(list(rank_))}, (@nil tape_entry), OErr)")
+        fr_meta.append((shape_, rank_, mode_))
+    if fr_cases:
+        failing_fr, n_fr, broken_fr = C.run_case_shards("C09", HEADER, "case", fr_cases, shard=400, timeout=600, tag="fullreq")
+        chk.cov["tensor_ring_sufficient_labels_checked_in_coq"] = n_fr
+        for b in broken_fr:
+            chk.broken.append({"what": "correspondence corr:C09 shard (sufficient labels) not evaluated", "detail": b})
+        for i in sorted(failing_fr):
+            shape_, rank_, mode_ = fr_meta[i]
+            chk.disagreement("corr:C09 sufficient-rank label (harness tr_rank_for(sufficient=True) vs tr_full_requestb, the premise of C09_tensor_ring_exact_full_request)",
+                             {"function": "tr", "shape": list(shape_), "rank": list(rank_), "options": {"mode": mode_}})
     if resid:
         chk.cov["oracle_residuals"] = {"svd_calls_taped": len(resid), "max_relative_residual_U_S_V_minus_M": max(resid),
                                        "max_orthonormality_residual_UtU_VVt_minus_I": max(orth) if orth else 0.0}
